@@ -40,6 +40,12 @@ def dft2(x):
     return dft_matrix(H) @ x @ dft_matrix(W).T
 
 
+def idft2(F):
+    """inverse of dft2 (complex result), same explicit matrices"""
+    H, W = F.shape[-2:]
+    return (np.conj(dft_matrix(H)) @ F @ np.conj(dft_matrix(W)).T) / float(H * W)
+
+
 def freq(H, W, pixel):
     """f [cycles/Angstrom] of every DFT bin (ky, kx) of an H x W image with the given pixel size."""
     ky = dft_index(H).astype(np.float64)[:, None] / (H * float(pixel))
@@ -156,6 +162,10 @@ def resolve_doses(total_dose):
     """-> float64 vector or None (not judged)"""
     try:
         if isinstance(total_dose, np.ndarray):
+            if total_dose.ndim == 1 and total_dose.dtype.kind == "O":      # e.g. what the mdoc loader hands back
+                if not all(isinstance(v, (int, float, np.integer, np.floating)) and not isinstance(v, bool) for v in total_dose):
+                    return None
+                return np.array([float(v) for v in total_dose], dtype=np.float64)
             if total_dose.ndim != 1 or total_dose.dtype.kind not in "fiu":
                 return None
             return total_dose.astype(np.float64)
